@@ -122,3 +122,13 @@ Print Assumptions C04_cost_adds_back.
 Print Assumptions C04_supplied_values_out.
 Print Assumptions C04_supplied_values_in.
 Print Assumptions C04_decimal_context.
+
+(** SOURCE TIE (fee split).  The keyword arguments of the InTransaction(...) that ods_parser._create_and_process_transaction
+    re-creates for an acquisition with a crypto fee are re-read from the source on every run (Generated.gen_split_in_args:
+    parameter -> where its value comes from); interpreted by Model/SplitGen.v they give the model's [split_in]: every fiat
+    value (fiat_in_no_fee, fiat_in_with_fee, fiat_fee) is the one derived by the first construction, the crypto fee is
+    dropped.  A dropped keyword (fiat_in_with_fee then falls back to no_fee + fee) stops compiling here. *)
+From RP2V Require Import Model.Parser Model.SplitGen Proofs.SplitGenProofs.
+Theorem C04_source_tie_fee_split_values : forall a, split_in_gen a = split_in a.
+Proof. exact split_in_gen_agrees. Qed.
+Print Assumptions C04_source_tie_fee_split_values.
